@@ -289,7 +289,7 @@ def build_harness():
 def ensure_fstree():
     """the fixed tree the `fs` scenario family serves (document root = fstree/parent/root)"""
     base = os.path.join(ROOT, ".work", "fstree")
-    marker = os.path.join(base, ".complete-v2")
+    marker = os.path.join(base, ".complete-v3")
     if os.path.exists(marker):
         return base
     shutil.rmtree(base, ignore_errors=True)
@@ -306,6 +306,8 @@ def ensure_fstree():
     put("parent/root/big.bin", 70000, 7)
     put("parent/root/empty.txt", 0, 8)
     put("parent/root/edge.bin", 65536, 9)
+    # a name outside ASCII (2- and 3-byte UTF-8 sequences): the listing's Content-Length counts bytes, not characters (H08-1)
+    put("parent/root/sub/caf\u00e9 \u4e2d.txt", 5, 10)
     open(marker, "w").write("ok")
     return base
 
